@@ -799,29 +799,33 @@ func (g *generator) enterNextFinallyFrame() (canContinue bool) {
 	return
 }
 
+// throwIntoBody propagates an exception through the try statements of the generator body that are still on the
+// try stack (the frames above the one pushed by enterNext). The frame of a finally block that was entered because
+// of return() is marked so that an exception stops there: it is removed and the unwinding continues, the exception
+// replaces the pending return. Returns nil if a catch or finally block of the body has been entered.
+func (g *generator) throwIntoBody(ex *Exception) *Exception {
+	vm := g.vm
+	for ex != nil && len(vm.tryStack) > int(g.tryStackLen) {
+		vm.popTryFrame()
+		g.returning = nil
+		// stops at the frame pushed by enterNext (restoring the caller's state) if the body does not handle it
+		ex = vm.handleThrow(ex)
+	}
+	return ex
+}
+
 func (g *generator) step() (res Value, resultType resultType, ex *Exception) {
 	vm := g.vm
-	if g.returning == nil {
+	if g.returning != nil {
 		for {
 			ex = vm.runTryInner()
 			if ex != nil {
-				return
-			}
-			if vm.halted() {
-				break
-			}
-		}
-		res = vm.pop()
-	} else {
-		for {
-			ex = vm.runTryInner()
-			if ex != nil {
-				if vm.prg != nil || vm.pc != -2 {
-					// The exception was thrown in the outermost finally block, it never got to leaveFinally
-					// which does popTryFrame()
-					vm.popTryFrame()
+				// The exception was thrown in a finally block entered by return(): it replaces the return
+				// and is handled by the enclosing try statements of the body, if any
+				if ex = g.throwIntoBody(ex); ex != nil {
+					return
 				}
-				return
+				break
 			}
 
 			if vm.prg != nil && vm.pc == -2 { // normal exit from finally
@@ -844,10 +848,22 @@ func (g *generator) step() (res Value, resultType resultType, ex *Exception) {
 			if vm.prg == nil { // It was a return, not a yield
 				return
 			}
+			goto yielded
+		}
+	}
+	// normal mode (also entered when an exception thrown while returning was caught by the body)
+	for {
+		ex = vm.runTryInner()
+		if ex != nil {
+			return
+		}
+		if vm.halted() {
 			break
 		}
 	}
+	res = vm.pop()
 
+yielded:
 	if ym, ok := res.(*yieldMarker); ok {
 		resultType = ym.resultType
 		g.ctx = execCtx{}
@@ -886,6 +902,10 @@ func (g *generator) next(v Value) (Value, resultType, *Exception) {
 func (g *generator) nextThrow(v interface{}) (Value, resultType, *Exception) {
 	g.enterNext()
 	ex := g.vm.handleThrow(v)
+	if ex != nil && g.returning != nil {
+		// suspended inside a finally block that was entered by return()
+		ex = g.throwIntoBody(ex)
+	}
 	if ex != nil {
 		g.vm.popTryFrame()
 		g.vm.popCtx()
